@@ -14,8 +14,10 @@ VERIF = os.path.dirname(os.path.dirname(os.path.abspath(__file__)))
 REPO = os.environ.get("VERIF_REPO", "/repo")
 SPEC = os.path.join(VERIF, "spec")
 HARNESS = os.path.join(VERIF, "harness")
-EVID = os.path.join(VERIF, "evidence")
-REPLAYS = os.path.join(VERIF, "evidence", "replays")
+# seeded-change runs (bin/reseed, bin/seedtest) redirect their evidence so that
+# the committed files always describe a run on the unchanged tree
+EVID = os.environ.get("VERIF_EVID_DIR") or os.path.join(VERIF, "evidence")
+REPLAYS = os.path.join(EVID, "replays")
 NCPU = os.cpu_count() or 4
 
 
